@@ -1268,6 +1268,32 @@ Proof.
   apply last_grows in Hm. simpl in Hm. eapply has_trans; eauto.
 Qed.
 
+(* ... so no bit of the initial state (Ready apart, after an error) is ever lost,
+   however many restarts there were and whatever kind of connection the
+   restarting features returned *)
+Lemma clear_ready_back a : has (N.lor (clear_ready a) st_Ready) a = true.
+Proof.
+  apply has_true. apply N.bits_inj. intro i. unfold clear_ready.
+  rewrite N.land_spec, N.lor_spec, N.ldiff_spec.
+  destruct (N.testbit a i), (N.testbit st_Ready i); reflexivity.
+Qed.
+
+Lemma final_keeps_initial : has (N.lor (r_bits r) st_Ready) bits = true.
+Proof.
+  pose proof final_bits_accounted as X.
+  assert (G : has (acc_bits bits (trace r)) bits = true).
+  { pose proof (proj1 (clause_monotone c bits clear tls outs choices)) as Hm. fold r fs ws in Hm.
+    apply last_grows in Hm. rewrite last_is_acc in Hm. exact Hm. }
+  unfold final_bits in X. destruct (r_class r).
+  - eapply has_trans; [|exact G]. destruct X as [-> | ->]; [apply has_lor_l; apply has_refl|].
+    apply has_lor_l. apply has_lor_l. apply has_refl.
+  - rewrite X. eapply has_trans; [apply clear_ready_back | exact G].
+  - eapply has_trans; [|exact G]. destruct X as [-> | ->]; [apply has_lor_l; apply has_refl|].
+    apply has_lor_l. apply has_lor_l. apply has_refl.
+  - eapply has_trans; [|exact G]. destruct X as [-> | ->]; [apply has_lor_l; apply has_refl|].
+    apply has_lor_l. apply has_lor_l. apply has_refl.
+Qed.
+
 End Monotone.
 
 
